@@ -79,6 +79,9 @@ var c03uKinds = []c03uKind{
 	{"empty-datagram", func(id uint16) []byte { return []byte{} }, false},
 }
 
+var c03uSlowEntered = make(chan struct{}, 16)
+var c03uRelease = make(chan struct{}, 16)
+
 type c03uPeer struct {
 	srv  *net.UDPConn
 	cli  *net.UDPConn
@@ -93,6 +96,18 @@ func c03uStart() (*c03uPeer, error) {
 			return nil
 		case "err.test.":
 			return errors.New("c03u: chain error")
+		case "slow.test.":
+			// held until a query of another client has entered the handler (or 5 s)
+			c03uSlowEntered <- struct{}{}
+			select {
+			case <-c03uRelease:
+			case <-time.After(5 * time.Second):
+			}
+		case "fast.test.":
+			select {
+			case c03uRelease <- struct{}{}:
+			default:
+			}
 		}
 		r := new(dns.Msg)
 		r.SetReply(q)
@@ -287,6 +302,20 @@ func TestVerifC03u(t *testing.T) {
 			break
 		}
 	}
+	// ---- two clients: a query of client A is still being handled when a datagram of client B
+	// arrives; each client gets exactly one reply, its own
+	if only == "" || only == "two-clients" {
+		rounds := 40
+		if e.Tier == "thorough" {
+			rounds = 400
+		}
+		res.Bounds["u.two_clients"] = fmt.Sprintf("%d rounds: A's query is held in the handler until B's query (another socket) has entered it", rounds)
+		if e.Mine(int64(len(kinds))) && res.Infra == "" {
+			if v := c03uTwoClients(rounds, res); v != "" {
+				res.Outcome("u/two-clients/" + v)
+			}
+		}
+	}
 	if only != "" {
 		for _, v := range res.Violations {
 			fmt.Printf("REPLAY-VIOLATION property=C03 sig=%s\n  %s\n", v.Sig, v.Desc)
@@ -296,4 +325,94 @@ func TestVerifC03u(t *testing.T) {
 		}
 	}
 	res.Write(e)
+}
+
+func c03uTwoClients(rounds int, res *vr.Result) string {
+	p, err := c03uStart()
+	if err != nil {
+		res.Infra = "u: cannot open loopback UDP sockets: " + err.Error()
+		return ""
+	}
+	defer p.stop()
+	cliB, err := net.DialUDP("udp", nil, p.srv.LocalAddr().(*net.UDPAddr))
+	if err != nil {
+		res.Infra = "u: cannot open a second client socket: " + err.Error()
+		return ""
+	}
+	defer cliB.Close()
+	read := func(c *net.UDPConn, d time.Duration) (*dns.Msg, bool) {
+		buf := make([]byte, 65535)
+		c.SetReadDeadline(time.Now().Add(d))
+		n, err := c.Read(buf)
+		if err != nil {
+			return nil, false
+		}
+		m := new(dns.Msg)
+		if m.Unpack(buf[:n]) != nil {
+			return nil, true
+		}
+		return m, true
+	}
+	slowQ := func(id uint16) []byte { return c03uCat(c03uHeader(id, 0x0100, 1, 0, 0, 0), c03uName("slow")) }
+	fastQ := func(id uint16) []byte { return c03uCat(c03uHeader(id, 0x0100, 1, 0, 0, 0), c03uName("fast")) }
+	for r := 0; r < rounds; r++ {
+		incomplete := 0
+		for try := 0; try < 3; try++ {
+			for len(c03uSlowEntered) > 0 {
+				<-c03uSlowEntered
+			}
+			for len(c03uRelease) > 0 {
+				<-c03uRelease
+			}
+			idA, idB := uint16(0xA000+r*4+try), uint16(0xB000+r*4+try)
+			p.cli.Write(slowQ(idA))
+			select {
+			case <-c03uSlowEntered:
+			case <-time.After(5 * time.Second):
+				incomplete++
+				continue // A's datagram lost?
+			}
+			cliB.Write(fastQ(idB))
+			ma, okA := read(p.cli, 8*time.Second)
+			mb, okB := read(cliB, 8*time.Second)
+			res.Evaluations += 2
+			res.States++
+			bad := func(who string, m *dns.Msg, want uint16, wantName string) string {
+				if m == nil {
+					return ""
+				}
+				if m.Id != want || len(m.Question) != 1 || m.Question[0].Name != wantName {
+					return fmt.Sprintf("client %s received a reply with ID %#04x question %v: its own query has ID %#04x question %s", who, m.Id, m.Question, want, wantName)
+				}
+				return ""
+			}
+			if d := bad("A", ma, idA, "slow.test."); d != "" {
+				res.ViolateInput("udp-server/reply-to-another-client", d+" (round "+fmt.Sprint(r)+": A's query was still being handled when B's datagram arrived)", c03uInput{Kind: "two-clients", K: r})
+				return "reply-to-another-client"
+			}
+			if d := bad("B", mb, idB, "fast.test."); d != "" {
+				res.ViolateInput("udp-server/reply-to-another-client", d+" (round "+fmt.Sprint(r)+": A's query was still being handled when B's datagram arrived)", c03uInput{Kind: "two-clients", K: r})
+				return "reply-to-another-client"
+			}
+			// a second datagram for either client?
+			if m2, ok := read(cliB, 50*time.Millisecond); ok {
+				id := uint16(0)
+				if m2 != nil {
+					id = m2.Id
+				}
+				res.ViolateInput("udp-server/second-reply", fmt.Sprintf("client B received a second datagram (ID %#04x) in round %d; client A got a reply: %v", id, r, okA), c03uInput{Kind: "two-clients", K: r})
+				return "second-reply"
+			}
+			if okA && okB {
+				incomplete = -1
+				break
+			}
+			incomplete++
+		}
+		if incomplete >= 3 {
+			res.ViolateInput("udp-server/no-reply/two-clients", fmt.Sprintf("round %d: three times in a row a client got no reply while another client's datagram arrived during the handling of its query", r), c03uInput{Kind: "two-clients", K: r})
+			return "no-reply"
+		}
+	}
+	return "ok"
 }
